@@ -549,6 +549,60 @@ theorem urlsplit_urlunsplit20 (scheme netloc path query fragment : Str)
   simp only [splitFirst_query _ _ h.path_noq]
   by_cases h1 : query = [] <;> by_cases h2 : fragment = [] <;> simp [h1, h2]
 
+/-- the parser on the normal form `scheme://netloc path ?query #fragment` (what
+`canonicalize_url` prints, whatever `uses_netloc` says about the scheme) -/
+theorem urlsplit_normal (S nl path q f : Str) (hS : SchemeShaped S) (hl : lower S = S)
+    (hnd : ∀ c ∈ nl, isNetlocDelim c = false) (hok : netlocOk nl = true)
+    (hpq : '?' ∉ path) (hph : '#' ∉ path) (hqh : '#' ∉ q)
+    (hpa : path = [] ∨ ∃ r, path = '/' :: r)
+    (hclean : ∀ c ∈ S ++ nl ++ path ++ q ++ f, isUnsafeUrlChar c = false) :
+    urlsplit (S ++ ':' :: '/' :: '/' :: (nl ++ (path ++ (queryPart q ++ fragPart f)))) [] =
+      some ⟨S, nl, path, q, f⟩ := by
+  have hcl : ∀ x, x ∈ S ∨ x ∈ nl ∨ x ∈ path ∨ x ∈ q ∨ x ∈ f → isUnsafeUrlChar x = false := by
+    intro x hx; apply hclean
+    simp only [List.mem_append]
+    rcases hx with hx | hx | hx | hx | hx <;> simp [hx]
+  have hclean' : cleanUrl (S ++ ':' :: '/' :: '/' :: (nl ++ (path ++ (queryPart q ++ fragPart f)))) =
+      S ++ ':' :: '/' :: '/' :: (nl ++ (path ++ (queryPart q ++ fragPart f))) := by
+    apply cleanUrl_id
+    · intro c hc
+      simp only [List.mem_append, List.mem_cons] at hc
+      rcases hc with hc | rfl | rfl | rfl | hc | hc | hc | hc
+      · exact hcl c (Or.inl hc)
+      · decide
+      · decide
+      · decide
+      · exact hcl c (Or.inr (Or.inl hc))
+      · exact hcl c (Or.inr (Or.inr (Or.inl hc)))
+      · rcases mem_queryPart hc with h1 | rfl
+        · exact hcl c (Or.inr (Or.inr (Or.inr (Or.inl h1))))
+        · decide
+      · rcases mem_fragPart hc with h1 | rfl
+        · exact hcl c (Or.inr (Or.inr (Or.inr (Or.inr h1))))
+        · decide
+    · intro c hc
+      obtain ⟨⟨d, r, e, hd⟩, _⟩ := hS
+      subst e
+      simp only [List.cons_append, List.head?_cons, Option.some.injEq] at hc
+      subst hc
+      exact alpha_not_c0 hd
+  unfold urlsplit
+  rw [hclean']
+  have hs := splitScheme_scheme S ('/' :: '/' :: (nl ++ (path ++ (queryPart q ++ fragPart f)))) hS hl
+  have hn := splitNetloc_slashes nl (path ++ (queryPart q ++ fragPart f)) hnd
+    (pathTail_head path q f hpa)
+  simp only [hs, hn, hok, Bool.not_true, Bool.false_eq_true, if_false]
+  have hq : '#' ∉ path ++ queryPart q := by
+    intro hm
+    rcases List.mem_append.1 hm with h1 | h1
+    · exact hph h1
+    · rcases mem_queryPart h1 with h2 | h2
+      · exact hqh h2
+      · cases h2
+  rw [← List.append_assoc, splitFirst_frag _ _ hq]
+  simp only [splitFirst_query _ _ hpq]
+  by_cases h1 : q = [] <;> by_cases h2 : f = [] <;> simp [h1, h2]
+
 /-! ## `str(n)` and `int(s)` -/
 
 theorem natToStr_eq (n : Nat) : natToStr n = Nat.toDigits 10 n := by
@@ -822,6 +876,105 @@ theorem accessors_unsplitNetloc (user pass host : Option Str) (port : Option Nat
     | some n =>
       simp only [Option.map_some, strToNat_natToStr]
       rw [if_pos (hp n rfl)]
+
+/-! ## the same with a host that keeps its brackets (an ip literal, `canonicalize_url`) -/
+
+/-- the host as `canonicalize_url` prints it: between brackets when the parsed host was
+(`b`), else as `unsplit_netloc` does -/
+def hostPartB (b : Bool) (H : Str) : Str := if b then '[' :: H ++ [']'] else hostPart H
+
+theorem hostPart_bracketed (H : Str) : hostPart ('[' :: H ++ [']']) = '[' :: H ++ [']'] := by
+  unfold hostPart
+  simp [startsWith_cons_cons, startsWith_nil]
+
+theorem mem_hostPartB {c : Char} {b : Bool} {H : Str} (h : c ∈ hostPartB b H) :
+    c ∈ H ∨ c = '[' ∨ c = ']' := by
+  unfold hostPartB at h
+  split at h
+  · simp only [List.mem_cons, List.mem_append, List.not_mem_nil, or_false] at h
+    rcases h with (h | h) | h
+    · exact Or.inr (Or.inl h)
+    · exact Or.inl h
+    · exact Or.inr (Or.inr h)
+  · exact mem_hostPart h
+
+theorem at_not_mem_restB (b : Bool) (H : Str) (port : Option Nat) (hH : '@' ∉ H) :
+    '@' ∉ hostPartB b H ++ portPart port := by
+  intro hm
+  rcases List.mem_append.1 hm with h | h
+  · rcases mem_hostPartB h with h | h | h
+    · exact hH h
+    · cases h
+    · cases h
+  · rcases mem_portPart h with h | h
+    · cases h
+    · revert h; decide
+
+theorem hostPortStr_hostB (b : Bool) (H : Str) (port : Option Nat)
+    (hb : b = true → ']' ∉ H) (hnb : b = false → '[' ∉ H ∧ ']' ∉ H) :
+    hostPortStr (hostPartB b H ++ portPart port) =
+      (H, match port with | some n => natToStr n | none => []) := by
+  cases b with
+  | false => exact hostPortStr_host H port (hnb rfl).1 (hnb rfl).2
+  | true =>
+    have h2 := hb rfl
+    unfold hostPortStr hostPartB
+    simp only [if_true, List.cons_append, List.append_assoc, List.singleton_append]
+    rw [splitFirst_cons_s20, if_pos rfl]
+    simp only [splitFirst_append_sep_s20 _ _ _ h2, Option.getD_some]
+    cases port with
+    | none => simp [portPart, splitFirst_nil_s20]
+    | some n => simp [portPart, splitFirst_cons_s20]
+
+/-- **the accessors on the netloc `canonicalize_url` prints**: userinfo `U:P@`, the host `H`
+between brackets when `b`, the port -/
+theorem accessors_printed (U P H : Str) (b : Bool) (port : Option Nat)
+    (hu : ':' ∉ U) (hat : '@' ∉ H)
+    (hb : b = true → ']' ∉ H) (hnb : b = false → '[' ∉ H ∧ ']' ∉ H)
+    (hp : ∀ n ∈ port, n ≤ 65535) :
+    username (authPart U P ++ (hostPartB b H ++ portPart port)) =
+      (if P ≠ [] ∨ U ≠ [] then some U else none) ∧
+    password (authPart U P ++ (hostPartB b H ++ portPart port)) =
+      (if P ≠ [] then some P else none) ∧
+    hostname (authPart U P ++ (hostPartB b H ++ portPart port)) =
+      (if H = [] then none else some (lowerHost H)) ∧
+    Py.port (authPart U P ++ (hostPartB b H ++ portPart port)) = some port ∧
+    hostinfoStr (authPart U P ++ (hostPartB b H ++ portPart port)) =
+      hostPartB b H ++ portPart port := by
+  have hr := at_not_mem_restB b H port hat
+  have hhi : hostinfo (authPart U P ++ (hostPartB b H ++ portPart port)) =
+      (H, port.map natToStr) := by
+    unfold hostinfo
+    rw [hostinfoStr_auth _ _ _ hr, hostPortStr_hostB _ _ _ hb hnb]
+    cases port with
+    | none => simp
+    | some n => simp [natToStr_ne_nil]
+  refine ⟨?_, ?_, ?_, ?_, hostinfoStr_auth _ _ _ hr⟩
+  · unfold username; rw [userinfo_auth _ _ _ hu hr]
+  · unfold password; rw [userinfo_auth _ _ _ hu hr]
+  · unfold hostname; rw [hhi]
+  · unfold Py.port; rw [hhi]
+    cases port with
+    | none => rfl
+    | some n =>
+      simp only [Option.map_some, strToNat_natToStr]
+      rw [if_pos (hp n rfl)]
+
+/-- what stands before the last `@` of the printed netloc: the userinfo -/
+theorem splitLast_auth (U P rest : Str) (hr : '@' ∉ rest) :
+    (splitLast (authPart U P ++ rest) '@').1 =
+      (if P ≠ [] then some (U ++ ':' :: P) else if U ≠ [] then some U else none) := by
+  unfold authPart
+  by_cases hP : P = []
+  · by_cases hUe : U = []
+    · simp [hP, hUe, splitLast_notMem _ _ hr]
+    · simp only [hP, hUe, ne_eq, not_true_eq_false, not_false_eq_true, if_true, if_false,
+        List.append_assoc, List.singleton_append]
+      rw [splitLast_append_sep _ _ _ hr]
+  · simp only [hP, ne_eq, not_false_eq_true, if_true, List.append_assoc, List.singleton_append,
+      List.cons_append, List.nil_append]
+    have : U ++ ':' :: (P ++ '@' :: rest) = (U ++ ':' :: P) ++ '@' :: rest := by simp
+    rw [this, splitLast_append_sep _ _ _ hr]
 
 /-! ## character facts -/
 
